@@ -286,7 +286,17 @@ def run_case(case):
             ca = gb.random_conventions(rng, keys)
             cb = gb.random_conventions(rng, keys)
             cc = gb.random_conventions(rng, keys)
-            v, nt = check_conversion(shells, ca, cb, rng, f"random {keys}", semantic=(lmax <= 6))
+            renamed = rng.random() < 0.3
+            if renamed:
+                # labels are arbitrary strings, optionally prefixed with '-': names that contain a minus sign themselves ("x2-y2")
+                def ren(lab):
+                    sign, name = ("-", lab[1:]) if lab.startswith("-") else ("", lab)
+                    return f"{sign}{name}-{name}2"
+
+                ca, cb, cc = ({k: [ren(x) for x in val] for k, val in c.items()} for c in (ca, cb, cc))
+                counters["renamed_label_cases"] = counters.get("renamed_label_cases", 0) + 1
+            v, nt = check_conversion(shells, ca, cb, rng, f"random {keys}{' (labels containing a minus sign)' if renamed else ''}",
+                                     semantic=(lmax <= 6 and not renamed))
             counters["convert_calls"] += 4
             counters["comparisons"] += 1
             p_ab, s_ab = _convert(shells, ca, cb)
